@@ -197,7 +197,12 @@ Theorem C05_two_reads_accept_sound : forall dcf rackf (g : ring N) keyspaces en1
   exists h rest, p = h :: rest /\
     pick_matches dcf rackf g keyspaces en1 co1 pol rq (Some h) = true /\
     exists F, plan_matches dcf rackf g keyspaces en2 co2 pol rq F = true /\
-      (rest = F \/ (~ In h rest /\ exists a b, F = a ++ h :: b /\ rest = a ++ b)).
+      ((rest = F /\
+        (In h rest ->
+         (group_of dcf rackf g keyspaces en2 co2 pol rq h < 8)%nat /\
+         Bool.eqb (group_of dcf rackf g keyspaces en1 co1 pol rq h <? 3)%nat
+                  (group_of dcf rackf g keyspaces en2 co2 pol rq h <? 3)%nat = false)) \/
+       (~ In h rest /\ exists a b, F = a ++ h :: b /\ rest = a ++ b)).
 Proof. exact two_reads_matches_sound. Qed.
 
 Theorem C05_two_reads_accepted : forall dcf rackf (g : ring N) keyspaces en1 co1 en2 co2 shf pol rq,
@@ -208,6 +213,35 @@ Theorem C05_two_reads_accepted : forall dcf rackf (g : ring N) keyspaces en1 co1
   forall pl, plan_two_reads dcf rackf g keyspaces en1 co1 en2 co2 shf pol rq cho shuf = Some pl ->
   two_reads_matches dcf rackf g keyspaces en1 co1 en2 co2 pol rq (map fst pl) = true.
 Proof. exact two_reads_accepted. Qed.
+
+(* the kind-L violation test (evaluated only on a plan the acceptor refused): what it means,
+   that nothing the acceptor accepts fails it, and that the model's two-read plan passes it *)
+Theorem C05_two_reads_safe_b_sound : forall dcf rackf (g : ring N) keyspaces en1 co1 en2 co2 pol rq p,
+  two_reads_safe_b dcf rackf g keyspaces en1 co1 en2 co2 pol rq p = true <->
+  exists h rest, p = h :: rest /\
+    (en1 h = true /\ permitted dcf g pol rq h = true) /\
+    (forall n, In n rest -> en2 n = true /\ permitted dcf g pol rq n = true) /\
+    NoDup rest /\
+    (In h rest ->
+     ~ ((group_of dcf rackf g keyspaces en2 co2 pol rq h < 8)%nat /\
+        Bool.eqb (group_of dcf rackf g keyspaces en1 co1 pol rq h <? 3)%nat
+                 (group_of dcf rackf g keyspaces en2 co2 pol rq h <? 3)%nat = true)).
+Proof. exact two_reads_safe_b_spec. Qed.
+
+Theorem C05_two_reads_accept_safe : forall dcf rackf (g : ring N) keyspaces en1 co1 en2 co2 pol rq p,
+  sorted_weak g ->
+  two_reads_matches dcf rackf g keyspaces en1 co1 en2 co2 pol rq p = true ->
+  two_reads_safe_b dcf rackf g keyspaces en1 co1 en2 co2 pol rq p = true.
+Proof. exact two_reads_matches_safe. Qed.
+
+Theorem C05_two_reads_model_safe : forall dcf rackf (g : ring N) keyspaces en1 co1 en2 co2 shf pol rq,
+  sorted_weak g ->
+  (forall k s, ks_lookup keyspaces k = Some s -> nts_keys_ok s) ->
+  forall cho shuf, (forall site l, Permutation (shuf site l) l) ->
+  (forall site len, (0 < len)%nat -> (cho site len < len)%nat) ->
+  forall pl, plan_two_reads dcf rackf g keyspaces en1 co1 en2 co2 shf pol rq cho shuf = Some pl ->
+  two_reads_safe_b dcf rackf g keyspaces en1 co1 en2 co2 pol rq (map fst pl) = true.
+Proof. exact two_reads_model_safe. Qed.
 
 (* the witness is the two-read plan of a two-node ring whose node 1 loses its connections *)
 Example C05_ex_two_reads :
@@ -270,6 +304,23 @@ Example C05_ex_two_reads_acceptor :
   tr (fun n => negb (N.eqb n 1)) tw_up tw_pol tw_rq [1; 2; 1]%N = false.
 Proof. repeat split; vm_compute; reflexivity. Qed.
 
+(* the violation test on refused plans: a wrong order or a missing node is not a violation, a
+   repeated unchanged head, a repeated later node, a disabled or foreign node is *)
+Example C05_ex_two_reads_safe_b :
+  let sf := two_reads_safe_b (fun _ => None) (fun _ => None) tw_g tw_ks tw_up tw_up in
+  let tr := two_reads_matches (fun _ => None) (fun _ => None) tw_g tw_ks tw_up tw_up in
+  (tr tw_up tw_up tw_pol tw_rq [2; 1]%N, sf tw_up tw_up tw_pol tw_rq [2; 1]%N) = (false, true) /\
+  (tr tw_up tw_up tw_pol tw_rq [1]%N, sf tw_up tw_up tw_pol tw_rq [1]%N) = (false, true) /\
+  sf tw_up tw_up tw_pol tw_rq [1; 1; 2]%N = false /\
+  sf tw_up tw_co2 tw_pol tw_rq [1; 2; 1]%N = true /\
+  sf tw_up tw_up tw_pol tw_rq [1; 2; 2]%N = false /\
+  sf (fun n => negb (N.eqb n 2)) tw_up tw_pol tw_rq [1; 2]%N = false /\
+  sf tw_up tw_up tw_pol tw_rq [1; 2; 9]%N = false /\
+  sf tw_up tw_up tw_pol tw_rq [] = false /\
+  (* the model's two-read plan (the witness of C05_two_reads_refuted) passes it *)
+  option_map (fun p => sf tw_up tw_co2 tw_pol tw_rq (map fst p)) tw_plan = Some true.
+Proof. repeat split; vm_compute; reflexivity. Qed.
+
 Example C05_ex_permitted :
   map (permitted ex_dcf ex_g ex_pol (ex_rq false)) [1; 4; 9]%N = [true; true; false] /\
   map (permitted ex_dcf ex_g {| pol_pref := Some (PDc 1); pol_token_aware := true; pol_failover := false |} (ex_rq false)) [1; 4; 9]%N
@@ -314,3 +365,6 @@ Print Assumptions C05_two_reads_safe.
 Print Assumptions C05_two_reads_refuted.
 Print Assumptions C05_two_reads_accept_sound.
 Print Assumptions C05_two_reads_accepted.
+Print Assumptions C05_two_reads_safe_b_sound.
+Print Assumptions C05_two_reads_accept_safe.
+Print Assumptions C05_two_reads_model_safe.
